@@ -152,6 +152,18 @@ class _IndexWrap:
         self._obj = obj
 
     def __getitem__(self, key):
+        items = key if isinstance(key, tuple) else (key,)
+        if self._obj is _np.r_ and any(has_sym(k) or is_symbolic(k) for k in items) and not any(isinstance(k, (str, slice)) for k in items):
+            # 1-d concatenation of scalars / arrays with symbolic members (numpy's r_ formats and probes its items)
+            flat = []
+            for k in items:
+                if isinstance(k, _np.ndarray):
+                    flat.extend(k.ravel().tolist())
+                elif isinstance(k, (list, tuple)):
+                    flat.extend(list(k))
+                else:
+                    flat.append(k)
+            return _build_object(flat)
         return _wrap_result(self._obj[key])
 
 
